@@ -41,7 +41,7 @@ def r_parts(tier):
     parts = []
     ob = "(R) view through the overlay == fold(stack); contains/getitem/get/keys/len/iter/parent agree"
     cfg = [("a_k", 3), ("ax", 3), ("ax_k", 3), ("rootk", 3), ("ab", 3)] if tier == "quick" else \
-          [("a_k", 4), ("ax", 4), ("ax_k", 3), ("rootk", 4), ("ax_xk", 3), ("axy", 3), ("axp", 3), ("ab", 4), ("ax_b", 3), ("ax_k", 4)]
+          [("a_k", 4), ("ax", 4), ("ax_k", 3), ("rootk", 3), ("ax_xk", 3), ("axy", 3), ("ab", 3)]
     ct = 600 if tier == "quick" else 3000
     for u, n in cfg:
         has_a_attr = u in ("a_k", "ax_k")
@@ -65,7 +65,7 @@ def r_parts(tier):
 def w_parts(tier):
     parts = []
     ob = "(W) op on stack == op on materialised single container == plain file; fold-consistent; Inv preserved; older containers untouched"
-    cfgs = [("ax_k", 2)] if tier == "quick" else [("ax_k", 2), ("ax", 3), ("ax_k", 3)]
+    cfgs = [("ax_k", 2)] if tier == "quick" else [("ax_k", 2), ("ax", 3)]
     for u, n in cfgs:
         for op in W_OPS_P:
             for p in W_PATHS:
